@@ -22,9 +22,11 @@
   take the list level to the abstract sequence, and `C04_store_refines_list_*` state the composition.
 
   Arguments are VALUES in `Op`: an element passed to push / push_at / set / concat / assign is not a record of the container
-  it is passed to.  The aliased calls are modelled separately (section "aliased arguments"): assign(x, x) (holds since
-  fix a3140e4), concat(x, x) (known finding KF-C04-self-concat), push(a, get(a, k)) / push_at(a, get(a, k), i) on an Array
-  (known finding KF-C04-push-own-element).  Tuple elements are object pointers other than the `Terminal` object
+  it is passed to, and the operand of concat / assign does not hold pointers to such records.  The aliased calls are modelled
+  separately (section "aliased arguments"): assign(x, x) (holds since fix a3140e4), concat(x, x) (known finding
+  KF-C04-self-concat), push(a, get(a, k)) / push_at(a, get(a, k), i) on an Array and concat / assign(x, tuple(get(x, k0), …)) (known
+  finding KF-C04-push-own-element), set / rem(x, get(x, k)) (hold; set on String elements since fix 744a45f).  `resize` of a List
+  beyond its length is in range only for element types whose zero record is a value (known finding KF-C04-list-resize-raw).  Tuple elements are object pointers other than the `Terminal` object
   (`C04_tuple_terminal_element`), Tuples are on the heap (`C04_tuple_not_on_heap` for the others).
 -/
 import CelloProofs.Lemmas.SeqRun
@@ -33,6 +35,7 @@ import CelloProofs.Lemmas.SortSorted
 import CelloProofs.Lemmas.SeqTupDistinct
 import CelloProofs.Lemmas.SeqAlias
 import CelloProofs.Lemmas.SeqStoreRun
+import CelloProofs.Lemmas.SeqStoreOwn
 
 namespace Cello.Seq
 variable {α : Type}
@@ -139,8 +142,10 @@ theorem C04_store_array_copy (s : ArrS α) (a : Arr α) (h : s.Abs a) : s.copy.1
 
 /-- **C04 for List (T1).** The same for a List whose counter field agrees with its chain (true of a new List, and
     preserved — third conjunct). `push_at` with key 0 is always in range, other keys must name an existing element;
-    `resize` pads with zero-initialised elements; `sort` is not available. -/
-theorem C04_refines_list_list [BEq α] [Inhabited α] (ops : List (Op α)) (l : Lst α) (hinv : l.Inv) (l' : List α)
+    `resize` beyond the length pads with zero-initialised elements and is in range ONLY for element types whose all-zero record
+    is a value (`ZeroIsValue.zeroOk`: Int, the byte records — not String; otherwise known finding KF-C04-list-resize-raw,
+    `C04_list_resize_grow_refuted`); shrinking `resize` is in range for every element type; `sort` is not available. -/
+theorem C04_refines_list_list [BEq α] [ZeroIsValue α] (ops : List (Op α)) (l : Lst α) (hinv : l.Inv) (l' : List α)
     (h : Spec.run Spec.lstStep l.items ops = some l') :
     let r := runOps Lst.step l ops
     r.2 = .ok () ∧ r.1.items = l' ∧ r.1.Inv ∧ r.1.nitems = l'.length ∧
@@ -160,12 +165,15 @@ theorem C04_refines_list_list [BEq α] [Inhabited α] (ops : List (Op α)) (l : 
   · rw [← h2]; exact Lst.iterBwd_eq r.1 h3
 
 /-- out of range for a List raises and leaves the List as it was — except `assign` from a source without `Len`
-    (`filter(…)`), which raises `ClassError` *after* `List_Clear` (second conjunct; the state half belongs to C12) -/
-theorem C04_list_out_of_range [BEq α] [Inhabited α] (l : Lst α) (hinv : l.Inv) (op : Op α)
+    (`filter(…)`), which raises `ClassError` *after* `List_Clear` (second conjunct; the state half belongs to C12), and except
+    `resize` beyond the length for an element type whose zero record is not a value (`l.rawGrow op`), which does not raise at
+    all: the List is grown with records that were never constructed (third conjunct; known finding KF-C04-list-resize-raw) -/
+theorem C04_list_out_of_range [BEq α] [ZeroIsValue α] (l : Lst α) (hinv : l.Inv) (op : Op α)
     (h : Spec.lstStep l.items op = none) :
-    (op.iterAssign = false → (l.step op).1 = l ∧ ∃ e, (l.step op).2 = .raised e) ∧
-    (∀ ys, op = .assign ys false → l.step op = (l.clear, .raised .classError)) :=
-  ⟨fun hop => Lst.step_out_of_range l hinv op hop h, fun ys he => by subst he; rfl⟩
+    (op.iterAssign = false → l.rawGrow op = false → (l.step op).1 = l ∧ ∃ e, (l.step op).2 = .raised e) ∧
+    (∀ ys, op = .assign ys false → l.step op = (l.clear, .raised .classError)) ∧
+    (l.rawGrow op = true → (l.step op).2 = .ub ∧ ∃ n, op = .resize n ∧ (l.step op).1 = (l.resize n).1) :=
+  ⟨fun hop hrg => Lst.step_out_of_range l hinv op hop hrg h, fun ys he => by subst he; rfl, Lst.step_rawGrow l op⟩
 
 /-- a new List (and a copy) satisfies the counter invariant -/
 theorem C04_list_new_inv (xs : List α) : ((Lst.empty : Lst α).concat xs).1.Inv ∧ (⟨xs, xs.length⟩ : Lst α).copy.Inv := by
@@ -178,26 +186,51 @@ theorem C04_list_new_inv (xs : List α) : ((Lst.empty : Lst α).concat xs).1.Inv
     history run to the first exception: the store-level run (`List_At` walking `next` from `head` or `prev` from `tail`,
     `List_Link` with its head / tail / neighbour cases, `List_Unlink` with its four cases, free) ends in a state whose
     chain holds exactly what the list-level run ends in, with the same outcome. -/
-theorem C04_store_list_simulates [BEq α] [Inhabited α] (ops : List (Op α)) (s : LstS α) (l : Lst α) (h : s.Abs l) :
+theorem C04_store_list_simulates [BEq α] [ZeroIsValue α] (ops : List (Op α)) (s : LstS α) (l : Lst α) (h : s.Abs l) :
     (runOps LstS.step s ops).1.Abs (runOps Lst.step l ops).1 ∧ (runOps LstS.step s ops).2 = (runOps Lst.step l ops).2 :=
   runOps_sim LstS.step Lst.step LstS.Abs (fun _ _ op h => LstS.step_sim h op) ops s l h
 
+/-- no operation of the history (exceptions caught, history continued) is a `resize` in the territory of known finding
+    KF-C04-list-resize-raw at the state it is applied to -/
+def NoRawGrow [BEq α] [ZeroIsValue α] : Lst α → List (Op α) → Prop
+  | _, [] => True
+  | l, op :: ops => l.rawGrow op = false ∧ NoRawGrow (l.step op).1 ops
+
+theorem NoRawGrow.last [BEq α] [ZeroIsValue α] (op : Op α) : ∀ (ops : List (Op α)) (l : Lst α), NoRawGrow l (ops ++ [op]) →
+    (ops.foldl (fun l op => (l.step op).1) l).rawGrow op = false
+  | [], _, h => h.1
+  | _ :: ops, _, h => NoRawGrow.last op ops _ h.2
+
+/-- for element types whose zero record is a value (Int, byte records) the hypothesis is empty: every history qualifies -/
+theorem NoRawGrow.of_zeroOk [BEq α] [ZeroIsValue α] (hz : ZeroIsValue.zeroOk α = true) : ∀ (ops : List (Op α)) (l : Lst α), NoRawGrow l ops
+  | [], _ => trivial
+  | op :: ops, l => ⟨Lst.rawGrow_false hz l op, NoRawGrow.of_zeroOk hz ops _⟩
+
 /-- **No NULL link followed, no freed node touched (T1)**: in every state reachable from a new List by any history
-    whatsoever (exceptions caught) the next operation does not produce `.ub`, and the chain is intact: forward iteration
+    whatsoever (exceptions caught) none of whose steps is a `resize` that manufactures unconstructed elements (`NoRawGrow`:
+    no restriction at all for Int-like element types — `NoRawGrow.of_zeroOk`; for String-like ones exactly the territory of
+    KF-C04-list-resize-raw is excluded) the next operation does not produce `.ub`, and the chain is intact: forward iteration
     along `next` and backward iteration along `prev` read the same items, one the reverse of the other. -/
-theorem C04_store_list_never_ub [BEq α] [Inhabited α] (xs : List α) (ops : List (Op α)) (op : Op α) :
+theorem C04_store_list_never_ub [BEq α] [ZeroIsValue α] (xs : List α) (ops : List (Op α)) (op : Op α)
+    (hn : NoRawGrow (Lst.empty.concat xs).1 (ops ++ [op])) :
     let s := ops.foldl (fun s op => (s.step op).1) (LstS.new xs).1
     (s.step op).2 ≠ .ub ∧ ∃ items, s.iterFwd = some items ∧ s.iterBwd = some items.reverse ∧ s.nitems = items.length := by
   intro s
   have habs : s.Abs (ops.foldl (fun l op => (l.step op).1) (Lst.empty.concat xs).1) :=
     foldl_sim LstS.step Lst.step LstS.Abs (fun _ _ op h => LstS.step_sim h op) ops _ _ (LstS.new_abs xs).1
   refine ⟨?_, _, LstS.iterFwd_sim habs, LstS.iterBwd_sim habs, ?_⟩
-  · rw [(LstS.step_sim habs op).2]; exact Lst.step_ne_ub _ habs.inv op
+  · rw [(LstS.step_sim habs op).2]; exact Lst.step_ne_ub _ habs.inv op (NoRawGrow.last op ops _ hn)
   · obtain ⟨cells, _, h1, h2, h3⟩ := habs
     rw [h3, h1]; simp
 
+/-- … and from ANY state that holds a List, `.ub` is produced by exactly those steps (nodes and list level alike) -/
+theorem C04_list_ub_iff_raw_grow [BEq α] [ZeroIsValue α] (s : LstS α) (l : Lst α) (h : s.Abs l) (op : Op α) :
+    ((s.step op).2 = .ub ↔ l.rawGrow op = true) ∧ ((l.step op).2 = .ub ↔ l.rawGrow op = true) := by
+  refine ⟨?_, Lst.step_ub_iff l h.inv op⟩
+  rw [(LstS.step_sim h op).2]; exact Lst.step_ub_iff l h.inv op
+
 /-- **C04 for List, links to abstract sequence (T1)**: the composition; observations through the nodes. -/
-theorem C04_store_refines_list_list [BEq α] [Inhabited α] (ops : List (Op α)) (s : LstS α) (l : Lst α) (habs : s.Abs l)
+theorem C04_store_refines_list_list [BEq α] [ZeroIsValue α] (ops : List (Op α)) (s : LstS α) (l : Lst α) (habs : s.Abs l)
     (l' : List α) (h : Spec.run Spec.lstStep l.items ops = some l') :
     let r := runOps LstS.step s ops
     r.2 = .ok () ∧ r.1.nitems = l'.length ∧
@@ -398,7 +431,7 @@ theorem C04_copy (a : Arr α) (l : Lst α) (t : Tup α) :
     test is `eq(x, item)` — the argument order of `Tuple_Rem` — so its hypotheses are stated with `x == z`): if the
     sequence is `pre ++ y :: post` with `y` equal to `x` and nothing in `pre` equal to `x`, then after `rem x` it is
     `pre ++ post` and nothing was raised.  (Through `C04_store_*_simulates` the same holds for the cells / links.) -/
-theorem C04_rem_first [BEq α] [Inhabited α] (pre post : List α) (y x : α)
+theorem C04_rem_first [BEq α] [ZeroIsValue α] (pre post : List α) (y x : α)
     (hpre : ∀ z ∈ pre, (z == x) = false) (hy : (y == x) = true) :
     (∀ a : Arr α, a.items = pre ++ y :: post → ((a.step (.rem x)).1.items = pre ++ post ∧ (a.step (.rem x)).2 = .ok ())) ∧
     (∀ l : Lst α, l.Inv → l.items = pre ++ y :: post → ((l.step (.rem x)).1.items = pre ++ post ∧ (l.step (.rem x)).2 = .ok ())) ∧
@@ -616,6 +649,128 @@ theorem C04_list_push_own_element (l : Lst α) (k i : Int) (v : α) (hv : l.get 
     l.pushElem k = l.push v ∧ l.pushAtElem k i = l.pushAt v i := by
   unfold Lst.pushElem Lst.pushAtElem; rw [hv]; exact ⟨rfl, rfl⟩
 
+/-! ### pointers to the container's own elements inside the OPERAND of concat / assign (same known finding, sites Array_Concat,
+  Array_Assign, List_Assign) and as the argument of set / rem (fine; `set(x, i, get(x, i))` on String elements since fix 744a45f) -/
+
+/-- full statement: `concat(x, tuple(get(x, k0), …))` / `assign(x, tuple(get(x, k0), …))` do what `concat(x, vs)` / `assign(x, vs)` do
+    for the values `vs` of those elements -/
+def C04_operand_own_elements_statement : Prop :=
+  (∀ (a : Arr Nat), a.CapOk → ∀ (ks : List Int) (vs : List Nat), getAll a.get ks = .ok vs →
+    a.concatElems ks = a.concat vs ∧ a.assignElems ks = a.assign vs) ∧
+  (∀ (l : Lst Nat), l.Inv → ∀ (ks : List Int) (vs : List Nat), getAll l.get ks = .ok vs →
+    l.concatElems ks = l.concat vs ∧ l.assignElems ks = l.assign vs)
+
+/-- **refuted** (audit 2, item 1): `concat(a, tuple(get(a, 0), get(a, 2)))` on `[1,2,3]` with capacity 3 — `Array_Reserve_More`
+    reallocs before the loop reads the operand's pointers (`.ub`: use after free; ASan: heap-use-after-free in `Type_Of`);
+    `assign(a, tuple(get(a, 0), get(a, 2)))` — `Array_Clear` frees the block before the operand is read; the same for a
+    List, whose `List_Clear` frees the nodes.  Witnesses in corpus/kf_c04_push_own.ops (`kfown concat|assign|lassign`). -/
+theorem C04_operand_own_elements_refuted :
+    ((⟨[1, 2, 3], 3⟩ : Arr Nat).concatElems [0, 2]).2 = .ub ∧
+    ((⟨[1, 2, 3], 8⟩ : Arr Nat).assignElems [0, 2]).2 = .ub ∧
+    ((⟨[1, 2, 3], 3⟩ : Lst Nat).assignElems [0, 2]).2 = .ub ∧
+    ¬ C04_operand_own_elements_statement := by
+  refine ⟨by decide, by decide, by decide, ?_⟩
+  intro h
+  have := congrArg (·.2) (h.1 ⟨[1, 2, 3], 3⟩ (by simp [Arr.CapOk]) [0, 2] [1, 3] (by decide)).1
+  revert this; decide
+
+/-- **what does hold** (partial; missing for the full statement exactly the regions refuted above): `concat` on an Array with
+    enough spare capacity for the operand (`nitems + len ≤ nslots`: no `realloc`) is `concat` of the values; `concat` on a
+    List always is (every item is copied into a fresh node, nothing moves or is freed); an empty operand is harmless for
+    `assign` too. -/
+theorem C04_operand_own_elements_partial (a : Arr α) (l : Lst α) (ks : List Int) (vs : List α) :
+    (getAll a.get ks = .ok vs → a.nitems + vs.length ≤ a.nslots → a.concatElems ks = a.concat vs) ∧
+    (getAll l.get ks = .ok vs → l.concatElems ks = l.concat vs) ∧
+    (a.assignElems [] = a.assign [] ∧ l.assignElems [] = l.assign []) := by
+  refine ⟨?_, ?_, rfl, rfl⟩
+  · intro hg hcap
+    unfold Arr.concatElems; rw [hg]; simp only
+    rw [if_neg (by intro h; omega)]
+  · intro hg; unfold Lst.concatElems; rw [hg]
+
+/-- the formulas of `Arr.concatElems` / `Arr.assignElems` (`.ub` exactly when the operand is not empty and the block is reallocated,
+    resp. freed by `Array_Clear`) are not assumptions of the list-level model: they are what the CELLS do — record addresses with a
+    block generation, `realloc` / `free` bump the generation, the loop zeroes record `n+i`, reads through the pointer, writes.
+    (The List counterparts `LstS.concatElems` / `LstS.assignElems` — node addresses, `List_Clear` frees the nodes — are executed by
+    the driver beside the list level and compared on every input (`M` line), but their simulation is not proved.) -/
+theorem C04_store_operand_own_elements [Inhabited α] (s : ArrS α) (a : Arr α) (h : s.Abs a) (ks : List Int) :
+    ((s.concatElems ks).1.Abs (a.concatElems ks).1 ∧ (s.concatElems ks).2 = (a.concatElems ks).2) ∧
+    ((s.assignElems ks).1.Abs (a.assignElems ks).1 ∧ (s.assignElems ks).2 = (a.assignElems ks).2) :=
+  ⟨ArrS.concatElems_sim h ks, ArrS.assignElems_sim h ks⟩
+
+/-- `set(a, i, get(a, k))` on cells, for both settings of the element type's `assign(x, x)` (now / String before fix 744a45f): the
+    list-level formula of `Arr.setElem` is what the cells do — pointer into the block, no reallocation, read through it, write -/
+theorem C04_store_set_own_element (s : ArrS α) (a : Arr α) (h : s.Abs a) (i k : Int) (ok : Bool) :
+    (s.setElem i k ok).1.Abs (a.setElem i k ok).1 ∧ (s.setElem i k ok).2 = (a.setElem i k ok).2 :=
+  ArrS.setElem_sim h i k ok
+
+/-- … and `rem(x, get(x, k))` on cells / nodes is the list-level operation -/
+theorem C04_store_rem_own_element [BEq α] (s : ArrS α) (a : Arr α) (h : s.Abs a) (sl : LstS α) (l : Lst α) (hl : sl.Abs l) (k : Int) :
+    ((s.remElem k).1.Abs (a.remElem k).1 ∧ (s.remElem k).2 = (a.remElem k).2) ∧
+    ((sl.remElem k).1.Abs (l.remElem k).1 ∧ (sl.remElem k).2 = (l.remElem k).2) :=
+  ⟨ArrS.remElem_sim h k, LstS.remElem_sim hl k⟩
+
+/-- **`set(x, i, get(x, k))` is `set(x, i, v)`** for the value `v` of element `k` — Array and List, the code as it is: nothing
+    moves, and for `i = k` the element is assigned to itself, which every element type of this model takes (String since
+    fix 744a45f: `String_Assign` returns at once when `val is s->val`).  **`rem(x, get(x, k))` is `rem(x, v)`** (all three types). -/
+theorem C04_set_rem_own_element [BEq α] (a : Arr α) (l : Lst α) (t : Tup α) (i k : Int) :
+    (∀ v, a.get k = .ok v → a.setElem i k = a.set i v ∧ a.remElem k = a.rem v) ∧
+    (∀ v, l.get k = .ok v → l.setElem i k = l.set i v ∧ l.remElem k = l.rem v) ∧
+    (∀ v, t.get k = .ok v → t.remElem k = t.rem v) := by
+  refine ⟨?_, ?_, ?_⟩
+  · intro v hv; unfold Arr.setElem Arr.remElem; rw [hv]; simp
+  · intro v hv; unfold Lst.setElem Lst.remElem; rw [hv]; simp
+  · intro v hv; unfold Tup.remElem; rw [hv]
+
+/-- full statement for an element type whose `assign(x, x)` is given by `ok` -/
+def C04_set_own_element_statement (ok : Bool) : Prop :=
+  ∀ (a : Arr Nat) (i k : Int) (v : Nat), a.get k = .ok v → a.setElem i k ok = a.set i v
+
+theorem C04_set_own_element_holds : C04_set_own_element_statement true :=
+  fun a i k v hv => ((C04_set_rem_own_element a ⟨[], 0⟩ ⟨[]⟩ i k).1 v hv).1
+
+/-- **the String code before fix 744a45f refuted it**: `set(a, 0, get(a, 0))` on an `Array<String>` reached `String_Assign(s, s)`,
+    which reallocated the buffer and then copied from the freed one (regression witness corpus/seq_own_element.ops, op `setelem`
+    on kinds AS / LS: reverting the fix makes the harness die under ASan there) -/
+theorem C04_set_own_element_old_refuted :
+    ((⟨[5], 1⟩ : Arr Nat).setElem 0 0 false).2 = .ub ∧ ((⟨[5, 6], 2⟩ : Arr Nat).setElem (-1) 1 false).2 = .ub ∧
+    ¬ C04_set_own_element_statement false := by
+  refine ⟨by decide, by decide, ?_⟩
+  intro h
+  have := congrArg (·.2) (h ⟨[5], 1⟩ 0 0 5 (by decide))
+  revert this; decide
+
+/-! ### `resize` of a List beyond its length (known finding KF-C04-list-resize-raw) -/
+
+/-- full statement: for EVERY element type `resize(l, n)` completes normally and leaves `n` elements that every observation
+    accepts.  (Stated for the String-like element type of the model; `.ub` is the model's outcome for a List that counts
+    records no operation of the element type accepts.) -/
+def C04_list_resize_grow_statement : Prop :=
+  ∀ (l : Lst StrElem) (n : Nat), l.Inv → (l.step (.resize n)).2 = .ok () ∧ (l.step (.resize n)).1.items.length = n
+
+/-- **refuted** (audit 2, item 2): `l = new(List, String, $S("a")); resize(l, 3)` links two `calloc`ed records whose `val` is
+    NULL; `mem(l, $S("zz"))` then is `strcmp(NULL, …)` (reproduced: SIGSEGV).  Witness corpus/kf_c04_list_resize_raw.ops. -/
+theorem C04_list_resize_grow_refuted :
+    ((⟨[⟨1⟩], 1⟩ : Lst StrElem).step (.resize 3)).2 = .ub ∧ ¬ C04_list_resize_grow_statement := by
+  refine ⟨by decide, ?_⟩
+  intro h
+  have := (h ⟨[⟨1⟩], 1⟩ 3 rfl).1
+  revert this; decide
+
+/-- **what does hold** (partial; missing exactly `n > len` for element types whose zero record is not a value): every `resize`
+    for Int-like element types, and every `resize` that does not grow for all element types, completes and leaves the
+    abstract result. -/
+theorem C04_list_resize_partial [BEq α] [ZeroIsValue α] (l : Lst α) (hinv : l.Inv) (n : Nat)
+    (h : ZeroIsValue.zeroOk α = true ∨ n ≤ l.items.length) :
+    (l.step (.resize n)).2 = .ok () ∧
+    (l.step (.resize n)).1.items = l.items.take n ++ List.replicate (n - l.items.length) default ∧ (l.step (.resize n)).1.Inv := by
+  apply Lst.step_refines l hinv (.resize n)
+  simp only [Spec.lstStep]
+  rw [if_pos]
+  rcases h with h | h
+  · simp [h]
+  · simp [h]
+
 /-! ### assign from an iterator-only source (known finding KF-C04-tuple-assign-iter) -/
 
 /-- full statement: `assign(x, filter(…))` replaces the contents by the items the iteration yields -/
@@ -687,6 +842,12 @@ example : ((runOps ArrS.step (ArrS.new [1, 2, 3]) [.pushAt 9 1, .popAt 0, .push 
 
 /-- a state that meets the hypotheses of `C04_push_own_element_partial`, and one of `C04_tuple_not_on_heap` -/
 example : (⟨[1, 2, 3], 8⟩ : Arr Nat).get 0 = .ok 1 ∧ (⟨[1, 2, 3], 8⟩ : Arr Nat).nitems < 8 := by decide
+/-- states that meet the hypotheses of `C04_operand_own_elements_partial`, `C04_list_resize_partial` (a String-like List that shrinks)
+    and `NoRawGrow` (a String-like history with a shrinking resize) -/
+example : getAll (⟨[1, 2, 3], 8⟩ : Arr Nat).get [0, -1] = .ok [1, 3] ∧ (⟨[1, 2, 3], 8⟩ : Arr Nat).nitems + 2 ≤ 8 := by decide
+example : ZeroIsValue.zeroOk StrElem = false ∧ (2 : Nat) ≤ ([⟨1⟩, ⟨2⟩, ⟨3⟩] : List StrElem).length := by decide
+example : NoRawGrow (⟨[⟨1⟩, ⟨2⟩, ⟨3⟩], 3⟩ : Lst StrElem) [.push ⟨4⟩, .resize 2, .resize 2, .pop] := by
+  simp [NoRawGrow, Lst.rawGrow, Lst.step, Lst.push, Lst.resize, ZeroIsValue.zeroOk]
 example : (⟨#[some (.item 1), some .term], false⟩ : TupS Nat).Cells ⟨[1]⟩ := by
   refine ⟨rfl, ?_⟩
   intro k hk
